@@ -202,14 +202,36 @@ def encode_bridged_message(routing, header, payload, seq):
     return tx_data
 
 
-def decode_bridged_message(rx_data):
+def is_send_message_response(rx_data, verify=False):
+    """Check if a message is a response to the Send Message command.
+
+    The command id alone does not tell: other network functions use 0x34 as
+    well (e.g. HPM.1 Get Upgrade Status), so the network function is checked
+    too.
+
+    rx_data: the received message as bytestring
+    verify: also require both checksums of the message to be valid
+    """
+    data = array('B', rx_data)
+    if data[1] >> 2 != constants.NETFN_APP + 1 \
+            or data[5] != constants.CMDID_SEND_MESSAGE:
+        return False
+    if verify and (checksum(data[0:3]) != 0 or checksum(data[3:]) != 0):
+        return False
+    return True
+
+
+def decode_bridged_message(rx_data, verify=False):
     """Decode a (multi-)bridged command.
 
     rx_data: the received message as bytestring
+    verify: unwrap a Send Message response only if both of its checksums are
+            valid; a damaged one is returned as it is (and will not pass
+            rx_filter)
 
     Returns the decoded message as bytestring
     """
-    while array('B', rx_data)[5] == constants.CMDID_SEND_MESSAGE:
+    while is_send_message_response(rx_data, verify):
         rsp = create_message(constants.NETFN_APP + 1,
                              constants.CMDID_SEND_MESSAGE, None)
         decode_message(rsp, rx_data[6:])
